@@ -20,6 +20,7 @@ def run(ck: Checker) -> None:
     ck.guard("R-FLAGS-TT", lambda: T.r_flags_tt(ck))
     ck.guard("R-ACCESSOR-SIBLING", lambda: T.r_accessor_sibling(ck))
     ck.guard("R-ORDER-KEY", lambda: T.r_order_key(ck))
+    ck.guard("R-ORDER-KEY", lambda: T.r_gen_stateless(ck))
     ck.guard("R-REINSTALL", lambda: T.r_reinstall(ck))
     ck.guard("R-PRESENCE", lambda: T.r_presence(ck))
     ck.guard("R-ENUM-SHAPE", lambda: T.r_enum_shape(ck))
